@@ -9,6 +9,12 @@ usage: mutants.py [--suite] [--only SUBSTR] [--tier quick]
 import json, os, shutil, subprocess, sys, time
 
 VERIF = os.path.dirname(os.path.dirname(os.path.abspath(__file__)))
+# the checks run here are against broken copies: their evidence and replay files must not land in /verif
+SELFTEST_ROOT = "/var/tmp/vs-selftest-root"
+os.makedirs(SELFTEST_ROOT, exist_ok=True)
+if os.path.exists(os.path.join(VERIF, "known_findings.json")):
+    shutil.copy(os.path.join(VERIF, "known_findings.json"), SELFTEST_ROOT)
+os.environ["VERIF_ROOT_OVERRIDE"] = SELFTEST_ROOT
 REPO = "/repo"
 BASE = os.environ.get("VERIF_SCRATCH", "/var/tmp") + "/vs-selftest"
 GO = "/root/go/pkg/mod/golang.org/toolchain@v0.0.1-go1.25.0.linux-amd64/bin/go"
@@ -51,7 +57,7 @@ def apply(dst, mm):
         open(p, "w").write(s)
 
 def run_check(dst, prop, tier, tag):
-    env = dict(os.environ, VERIF_REPO=dst, VERIF_SCRATCH=BASE + "/scratch-" + tag, VERIF_ROOT_OVERRIDE="")
+    env = dict(os.environ, VERIF_REPO=dst, VERIF_SCRATCH=BASE + "/scratch-" + tag, VERIF_ROOT_OVERRIDE=SELFTEST_ROOT)
     os.makedirs(env["VERIF_SCRATCH"], exist_ok=True)
     t0 = time.time()
     r = subprocess.run([os.path.join(VERIF, "check"), prop, tier], env=env, capture_output=True, text=True, errors="replace")
